@@ -717,6 +717,10 @@ def evaluate(sp, c):
 
 def run(ctx):
     ctx.source_hash("sigpy/alg.py", "sigpy/prox.py", "sigpy/thresh.py")
+    # tie by translation (DESIGN 2.8): gen/Gen_alg_pg.v (GradientMethod / PDHG steps == coq/model/ProxGrad.v, this check's model)
+    # and gen/Gen_alg.v (== coq/model/Alg.v, Alg2.v) are regenerated from alg.py and compiled
+    from tools import translate_alg
+    tie_broken = translate_alg.tie(ctx, ["alg", "alg_pg"])   # obligations "translate:sigpy/alg.py (...)", "tie:generated solver steps == hand model"
     proof_ok = ctx.prove("Prop_C13.v")
     sp = core.import_sigpy()
     rng = ctx.rng
@@ -795,8 +799,8 @@ def run(ctx):
                       {"kind": "correspondence", "broken": "corr:" + c["kind"], "case": with_data(c, d["r"]),
                        "observed_last": store(d["r"]["obs"][-1]["x"])},
                       found_input=bool(d["bad"]), signature="C13:" + key)
-    if (not proof_ok or not corr_ok) and not ctx.violations:
-        broken = getattr(ctx, "broken_proof", {"theorem": "corr:coq-run", "log": "; ".join(ctx.notes)[-1500:]})
+    if (not proof_ok or not corr_ok or tie_broken) and not ctx.violations:
+        broken = getattr(ctx, "broken_proof", tie_broken or {"theorem": "corr:coq-run", "log": "; ".join(ctx.notes)[-1500:]})
         ctx.violation("proof obligation no longer checks: %s" % broken.get("theorem"),
                       {"kind": "proof", "broken": broken}, found_input=False, signature="C13:proof")
     ctx.trusted += TRUSTED
